@@ -225,8 +225,16 @@ def make_plan(seed: int, tier: str, index: int) -> dict[str, Any]:
         # the reader raises from read()
         for _ci, _k, op in f.sample(all_ops, min(len(all_ops), f.randint(1, 3))):
             exc = f.choice(["SimAbort", "MemoryError", "MemoryError", "KeyboardInterrupt"])
-            kind = f.choice(["log", "log", "log", "select", "select", "reader"])
-            if kind == "log":
+            kind = f.choice(["log", "log", "log", "select", "select", "reader", "reenter", "reenter"])
+            if kind == "reenter":
+                # the application's log handler parses another chart (same thread, nested inside
+                # the running parse) when it receives the k-th record
+                nested = f.choice(corpus)
+                op["log_reenter"] = {"at": f.choice([1, 1, 2, 3]),
+                                     "nested": {"op": "parse", "text": nested["id"], "via": "file",
+                                                "reader": "stringio", "newline": "\n", "select": None,
+                                                **({"encoding": "utf-8-sig"} if nested["bom"] else {})}}
+            elif kind == "log":
                 op["log_fault"] = {"at": f.choice([1, 1, 2, 3]), "exc": exc}
             elif kind == "select":
                 if op.get("select") is None:
@@ -416,10 +424,11 @@ def execute(plan: dict[str, Any]) -> dict[str, Any]:
     fresh_refs = 0
     try:
         for ops in plan["clients"]:
-            for op in ops:
-                key = json.dumps(parseop.access_key(op))
-                if key not in refs:
-                    refs[key] = runner.in_fork(_reference, op, data_of[op["text"]], timeout=120)
+            for op0 in ops:
+                for op in [op0] + ([op0["log_reenter"]["nested"]] if op0.get("log_reenter") else []):
+                    key = json.dumps(parseop.access_key(op))
+                    if key not in refs:
+                        refs[key] = runner.in_fork(_reference, op, data_of[op["text"]], timeout=120)
         fr = plan.get("fresh")
         if fr:
             ci, k = fr["op"]
@@ -505,6 +514,24 @@ def execute(plan: dict[str, Any]) -> dict[str, Any]:
                 sched.begin_op(client, k, abort)
                 client.log_fault = ({"at": int(op["log_fault"]["at"]), "exc": cf_exc, "seen": 0,
                                      "fired": False} if cf_kind == "log" else None)
+                nested_out: list[Any] = []
+                if op.get("log_reenter"):
+                    nop = op["log_reenter"]["nested"]
+
+                    def reenter(nop: Any = nop, tag: str = f"c{ci}o{k}n") -> None:
+                        # runs inside logging's handler lock: never pre-empt here (a baton
+                        # scheduler must not switch away from a thread that holds a real lock)
+                        with sched.atomic(client):
+                            try:
+                                nested_out.append(("ok", parseop.do_parse(fs, nop, data_of[nop["text"]], tag)))
+                            except HarnessError:
+                                raise
+                            except BaseException as e:  # noqa: BLE001
+                                nested_out.append(("exc", e))
+
+                    client.log_fault = {"at": int(op["log_reenter"]["at"]), "exc": None, "seen": 0,
+                                        "fired": False, "reenter": reenter}
+                    configured["reentrant_handler"] = configured.get("reentrant_handler", 0) + 1
                 injected = client.abort_exc
                 chart = None
                 err: BaseException | None = None
@@ -519,6 +546,23 @@ def execute(plan: dict[str, Any]) -> dict[str, Any]:
                 with sched.atomic(client):
                     log = list(client.log)
                     cf_fired = False
+                    if op.get("log_reenter"):
+                        client.log_fault = None
+                        for nk, nv in nested_out:
+                            fired["nested_parse_in_log_handler"] = fired.get("nested_parse_in_log_handler", 0) + 1
+                            nref = refs[json.dumps(parseop.access_key(op["log_reenter"]["nested"]))]
+                            if nk == "exc":
+                                nout: dict[str, Any] = {"kind": "exc", "exc": exc_token(nv)}
+                            else:
+                                try:
+                                    nout = {"kind": "ok", "digest": rng.digest(observe_chart(nv))}
+                                except BaseException as e:  # noqa: BLE001
+                                    nout = {"kind": "observe-failed", "exc": exc_token(e)}
+                            if {x: y for x, y in nref.items() if x != "log"} != nout:
+                                vio("nested-parse-differs",
+                                    f"client {ci} op {k}: a parse of text {op['log_reenter']['nested']['text']} "
+                                    f"made by the log handler INSIDE the parse of text {op['text']} gave "
+                                    f"{_short(nout)} but a fresh-process parse gives {_short(nref)}")
                     if cf_kind == "log":
                         cf_fired = bool(client.log_fault and client.log_fault["fired"])
                         client.log_fault = None
@@ -694,7 +738,7 @@ def shrink(plan: dict[str, Any]):
     # drop faults / knobs
     for ci, ops in enumerate(clients):
         for k, op in enumerate(ops):
-            for fk in ("abort", "io", "eio", "log_fault", "sel_fault", "reader_fault", "slot", "select"):
+            for fk in ("abort", "io", "eio", "log_fault", "log_reenter", "sel_fault", "reader_fault", "slot", "select"):
                 if op.get(fk) is not None:
                     op2 = {a: b for a, b in op.items() if a != fk}
                     if fk == "select":
